@@ -443,12 +443,17 @@ class State:
             # function of the index variables, inside a block of its own (so it differs from every object
             # allocated outside the iteration); that two elements get two objects is not stated (weaker, sound)
             self.fresh_n += 1
-            f = z3.Function(f'obj!{self.fresh_n}', *([I] * len(bs)), I)
+            f = z3.Function(f'obj!{self.fresh_n}!{self.nalloc}', *([I] * len(bs)), I)
             r = f(*bs)
             lo = self.alloc0 + self.nalloc
             self.nalloc += 1 << 20
             self.fact(z3.And(r >= z3.simplify(lo), r < z3.simplify(lo + (1 << 20))))
             self.fact(cls_of(r) == self.reg.cid(cls_name))
+            if len(bs) == 1:
+                # two elements get two objects (each evaluation of the body allocates anew)
+                a, b = z3.Int('k!a'), z3.Int('k!b')
+                inj = z3.ForAll([a, b], z3.Implies(a != b, f(a) != f(b)), patterns=[z3.MultiPattern(f(a), f(b))])
+                self.fact(inj)
             return r
         r = self.alloc0 + self.nalloc
         self.nalloc += 1
@@ -1034,22 +1039,37 @@ class Interp:
                 arr = z3.Store(arr, n, self.box(seg[1]))
                 n = z3.simplify(n + 1)
             elif seg[0] == 'heap':
-                # copy of a whole heap list: only supported as the first segment
-                if not (z3.is_int_value(n) and n.as_long() == 0):
-                    raise Unsupported('lowering a list with a heap segment after other segments')
-                arr = seg[3]
-                n = seg[4]
+                if z3.is_int_value(n) and n.as_long() == 0:
+                    arr = seg[3]
+                    n = seg[4]
+                else:
+                    # a heap list appended after other elements: new[n0 + j] == src[j], new[j] == old[j] below n0
+                    a2 = st.fresh('arr', ElArr)
+                    j = z3.Int('j!l')
+                    st.fact(z3.ForAll([j], z3.Implies(z3.And(0 <= j, j < n), a2[j] == arr[j]), patterns=[a2[j]]))
+                    st.fact(z3.ForAll([j], z3.Implies(z3.And(0 <= j, j < seg[4]), a2[n + j] == seg[3][j]),
+                                      patterns=[seg[3][j]]))
+                    arr = a2
+                    n = z3.simplify(n + seg[4])
             elif seg[0] == 'comp':
                 c: CompResult = seg[1]
-                if not (z3.is_int_value(n) and n.as_long() == 0) or len(pl.segs) != 1:
-                    raise Unsupported('lowering a list with a comprehension segment after other segments')
+                first = z3.is_int_value(n) and n.as_long() == 0
+                if not first and not z3.is_true(z3.simplify(c.cond)):
+                    raise Unsupported('lowering a list with a filtered comprehension segment after other segments')
                 a2 = st.fresh('arr', ElArr)
                 if z3.is_true(z3.simplify(c.cond)):
                     j = z3.Int('j!l')
-                    vj = self.box(self.subst_sv(c.val, c.K, j))
-                    st.fact(z3.ForAll([j], z3.Implies(z3.And(0 <= j, j < c.length), a2[j] == vj),
-                                        patterns=[a2[j]]))
-                    n = c.length
+                    if first:
+                        vj = self.box(self.subst_sv(c.val, c.K, j))
+                        st.fact(z3.ForAll([j], z3.Implies(z3.And(0 <= j, j < c.length), a2[j] == vj),
+                                            patterns=[a2[j]]))
+                        n = c.length
+                    else:
+                        vj = self.box(self.subst_sv(c.val, c.K, j - n))
+                        st.fact(z3.ForAll([j], z3.Implies(z3.And(0 <= j, j < n), a2[j] == arr[j]), patterns=[a2[j]]))
+                        st.fact(z3.ForAll([j], z3.Implies(z3.And(n <= j, j < n + c.length), a2[j] == vj),
+                                            patterns=[a2[j]]))
+                        n = z3.simplify(n + c.length)
                 else:
                     n = self.ccnt(c)
                     st.fact(n >= 0)
@@ -3181,6 +3201,12 @@ class Interp:
             changed = self.heap_changed(base_heap, sub.st.heap, sub.st, base_written, base_nalloc)
             paths.append({'dec': decisions, 'facts': facts, 'out': out, 'sub': sub, 'fr': nfr,
                           'changed': changed, 'obl': sub.st.obligations[ob0:]})
+        # symbols and references created for the generic element must never be handed out again — to a later
+        # iteration over another sequence, or to the code that follows (two comprehensions sharing `hv!3(k)` or
+        # one allocation block would have their elements identified)
+        for sub, _, _ in results:
+            st.fresh_n = max(st.fresh_n, sub.st.fresh_n)
+            st.nalloc = max(st.nalloc, sub.st.nalloc)
         return K, length, paths
 
     def path_cond(self, p):
